@@ -9,7 +9,7 @@ from ..selftest import Mutant
 
 ID = "C46"
 TECHNIQUE = "control dependence of every destructive call on `not dry_run` (K2), provenance of the deleted paths from tree.extras() through the nested-controldir filter (K5), category-flag guards on every yield (K2) (ast)"
-FLOOR = 14
+FLOOR = 16
 CT = "breezy/clean_tree.py"
 EXPLANATION = """
 K2: in clean_tree.py:delete_items every destructive call (shutil.rmtree, os.unlink, os.remove, os.rmdir,
